@@ -7,7 +7,9 @@ import (
 	"encoding/binary"
 	"fmt"
 	"net/netip"
+	"os"
 	"sort"
+	"strconv"
 	"strings"
 	"testing"
 	"time"
@@ -46,7 +48,7 @@ func (c c39Cfg) String() string { return fmt.Sprintf("am_relay=%v/cert-v%d", c.a
 
 type c39Stats struct {
 	transitions, noops, rebuilds, forwards, fwdByData, dataRefused, ctlRefused, ctlAccepted, slotDeaths, honestDelivered,
-	migrations int64
+	migrations, spoofFinding, otherViolations, exactTransitions, probes int64
 	stateSeen [4]int64
 	trans     map[string]int64
 }
@@ -63,22 +65,35 @@ type c39World struct {
 	who   map[netip.Addr]string
 
 	fresh     uint32
-	announced map[string]map[uint32]bool // per peer: indexes it announced to R in crafted messages on its current leg
+	announced map[string]map[uint32]string // per peer: indexes it announced to R in crafted messages on its current leg -> peers it named
 	marker    int
 
 	// per event
 	evEmitted   []vpkt
+	evEmitSeq   []int
 	evDelivered []vpkt
+	evDelivSeq  []int
+	seq         int
 	lossR       bool
 	hist        []string
 	bad         bool
+	origin      map[string]string // relayed payload -> node that first put it on the wire (retransmissions are not forwards)
+	spoofed     []string // crafted requests with a RelayFromAddr the sender does not own that changed R's state
 }
 
 var c39Names = []string{"i", "r", "t", "o"}
 
+// c39SpoofSig: the signature of the defect found on the unchanged tree (see proposed_fixes/C39-relayfrom-not-authenticated.md).
+const c39SpoofSig = "a CreateRelayRequest whose RelayFromAddr is not the sender's own address re-binds another pair's relay slot; the relay then forwards that pair's traffic onto an index the target negotiated for the requester"
+
 func (w *c39World) violation(sig string, detail map[string]any) {
 	detail["history"] = append([]string{w.cfg.String()}, w.hist...)
-	w.bad = true
+	if sig == c39SpoofSig {
+		w.st.spoofFinding++ // a state reached through the known defect is still explored
+	} else {
+		w.bad = true
+		w.st.otherViolations++
+	}
 	w.c.Violation("C39: "+sig, detail)
 }
 
@@ -103,7 +118,7 @@ func c39New(t testing.TB, c *mc.Check, st *c39Stats, cfg c39Cfg) *c39World {
 	}
 	net := vNewNet(t, c.Seed(), specs...)
 	w := &c39World{t: t, c: c, st: st, cfg: cfg, net: net, nodes: map[string]*vnode{}, names: c39Names, addr: map[string]netip.Addr{}, who: map[netip.Addr]string{},
-		fresh: 0x51000000, announced: map[string]map[uint32]bool{}}
+		fresh: 0x51000000, announced: map[string]map[uint32]string{}}
 	for _, n := range c39Names {
 		w.nodes[n] = net.node(n)
 		w.addr[n] = net.node(n).vpnIP
@@ -153,7 +168,10 @@ func (w *c39World) handshake(n string) {
 func (w *c39World) collect() {
 	before := len(w.net.inflight)
 	w.net.collect()
-	w.evEmitted = append(w.evEmitted, w.net.inflight[before:]...)
+	for _, p := range w.net.inflight[before:] {
+		w.seq++
+		w.evEmitted, w.evEmitSeq = append(w.evEmitted, p), append(w.evEmitSeq, w.seq)
+	}
 }
 
 // run delivers everything in flight FIFO to quiescence. With lossR, what R emits is lost instead.
@@ -165,7 +183,8 @@ func (w *c39World) run() {
 		if !ok || (w.lossR && p.From == w.nodes["r"].udp) {
 			continue
 		}
-		w.evDelivered = append(w.evDelivered, p)
+		w.seq++
+		w.evDelivered, w.evDelivSeq = append(w.evDelivered, p), append(w.evDelivSeq, w.seq)
 		dst.deliver(p.From, p.Data)
 		w.collect()
 	}
@@ -268,11 +287,17 @@ func (w *c39World) allSlots() map[c39SlotID]Relay {
 }
 
 // key: canonical structural state. Index values are renamed by order of first appearance; no key bytes, no counters.
-func (w *c39World) key() string {
+func (w *c39World) key() string { return w.keyOf(false) }
+
+// keyOf(raw=true) keeps the raw index values: used to decide whether an event really left the world untouched.
+func (w *c39World) keyOf(raw bool) string {
 	ren := map[uint32]int{}
 	nm := func(x uint32) string {
 		if x == 0 {
 			return "0"
+		}
+		if raw {
+			return fmt.Sprintf("#%x", x)
 		}
 		id, ok := ren[x]
 		if !ok {
@@ -291,7 +316,7 @@ func (w *c39World) key() string {
 			owner[h.hi] = id
 			fmt.Fprintf(&sb, "%s[", id)
 			if name == "r" {
-				fmt.Fprintf(&sb, "pd%v in%v out%v ", h.hi.pendingDeletion.Load(), h.hi.in.Load(), h.hi.out.Load())
+				fmt.Fprintf(&sb, "pd%v ", h.hi.pendingDeletion.Load())
 			}
 			fmt.Fprintf(&sb, "rem%v via%v", h.hi.GetRemote().IsValid(), h.hi.relayState.CopyRelayIps())
 			for _, r := range c39SlotsOf(h.hi) {
@@ -312,18 +337,6 @@ func (w *c39World) key() string {
 		hmap.RUnlock()
 		sort.Strings(rel)
 		fmt.Fprintf(&sb, " R%v P%v", rel, n.pendingAddrs())
-		if name == "r" {
-			n.cm.relayUsedLock.RLock()
-			var ru []string
-			for i := range n.cm.relayUsed {
-				if _, known := ren[i]; known {
-					ru = append(ru, nm(i))
-				}
-			}
-			n.cm.relayUsedLock.RUnlock()
-			sort.Strings(ru)
-			fmt.Fprintf(&sb, " U%v", ru)
-		}
 		sb.WriteString("}")
 	}
 	return sb.String()
@@ -375,11 +388,11 @@ func (w *c39World) sendCtl(s string, msg *NebulaControl) bool {
 	return true
 }
 
-func (w *c39World) announce(s string, idx uint32) {
+func (w *c39World) announce(s string, idx uint32, forPeer string) {
 	if w.announced[s] == nil {
-		w.announced[s] = map[uint32]bool{}
+		w.announced[s] = map[uint32]string{}
 	}
-	w.announced[s][idx] = true
+	w.announced[s][idx] += forPeer + ","
 }
 
 // reqIndex resolves the index selector of a crafted request against R's CURRENT state (so that the menu is a function
@@ -420,7 +433,7 @@ func (w *c39World) payload() []byte {
 // apply executes one event; dirty=true means the world must not be reused for a sibling event even if its key is unchanged.
 func (w *c39World) apply(e c39Ev) (dirty bool) {
 	w.hist = append(w.hist, e.String())
-	w.evEmitted, w.evDelivered = nil, nil
+	w.evEmitted, w.evDelivered, w.evEmitSeq, w.evDelivSeq = nil, nil, nil, nil
 	before := w.allSlots()
 	keyBefore := ""
 	if e.K == "req" || e.K == "resp" {
@@ -435,7 +448,7 @@ func (w *c39World) apply(e c39Ev) (dirty bool) {
 		if e.K == "req" {
 			msg.InitiatorRelayIndex, ok = w.reqIndex(e)
 			if ok {
-				w.announce(e.S, msg.InitiatorRelayIndex)
+				w.announce(e.S, msg.InitiatorRelayIndex, e.To)
 			}
 		} else {
 			msg.Type = NebulaControl_CreateRelayResponse
@@ -460,7 +473,7 @@ func (w *c39World) apply(e c39Ev) (dirty bool) {
 				msg.ResponderRelayIndex = w.fresh
 			}
 			if ok {
-				w.announce(e.S, msg.ResponderRelayIndex)
+				w.announce(e.S, msg.ResponderRelayIndex, e.From)
 			}
 		}
 		if e.V1 {
@@ -553,12 +566,15 @@ func (w *c39World) apply(e c39Ev) (dirty bool) {
 		w.c.Broken("c39: unknown event %v", e)
 	}
 	w.lossR = false
-	w.audit(e, before)
+	defer w.audit(e, before)
 	if keyBefore != "" {
 		if w.key() == keyBefore {
 			w.st.ctlRefused++
 		} else {
 			w.st.ctlAccepted++
+			if e.K == "req" && e.From != e.S {
+				w.spoofed = append(w.spoofed, e.String())
+			}
 		}
 	}
 	return dirty
@@ -576,7 +592,7 @@ func (w *c39World) menu(thorough bool) []c39Ev {
 		up[s] = hi != nil && hi.ConnectionState != nil
 	}
 	// honest traffic
-	mn = append(mn, c39Ev{K: "honest", S: "i", To: "t"}, c39Ev{K: "honest", S: "t", To: "i"}, c39Ev{K: "honest", S: "o", To: "t"})
+	mn = append(mn, c39Ev{K: "honest", S: "i", To: "t"}, c39Ev{K: "honest", S: "t", To: "i"}, c39Ev{K: "honest", S: "o", To: "t"}, c39Ev{K: "honest", S: "t", To: "o"})
 	// crafted requests
 	for _, s := range peers {
 		if !up[s] {
@@ -634,15 +650,6 @@ func (w *c39World) menu(thorough bool) []c39Ev {
 			}
 		}
 	}
-	// relayed data on every index R holds (and an unknown one), from every peer
-	for _, s := range peers {
-		if !up[s] {
-			continue
-		}
-		for k := -1; k < len(rs); k++ {
-			mn = append(mn, c39Ev{K: "data", S: s, Idx: k})
-		}
-	}
 	// churn
 	for _, s := range peers {
 		mn = append(mn, c39Ev{K: "close", S: s}, c39Ev{K: "closeR", S: s}, c39Ev{K: "silentR", S: s}, c39Ev{K: "rehs", S: s})
@@ -652,6 +659,24 @@ func (w *c39World) menu(thorough bool) []c39Ev {
 	}
 	mn = append(mn, c39Ev{K: "tickR"}, c39Ev{K: "tickAll"})
 	return mn
+}
+
+// probe: relayed data, authentically wrapped by every peer, on every relay index R holds and on an unknown one. Runs in
+// place on a world that has just reached a state; audit judges every resulting forward.
+func (w *c39World) probe() {
+	n := len(w.slots(w.nodes["r"]))
+	nh := len(w.hist)
+	for _, s := range []string{"i", "t", "o"} {
+		for k := -1; k < n; k++ {
+			if w.bad {
+				return
+			}
+			w.apply(c39Ev{K: "data", S: s, Idx: k})
+			w.st.transitions++
+			w.st.probes++
+			w.hist = w.hist[:nh]
+		}
+	}
 }
 
 func (w *c39World) peekReqIndex(e c39Ev, rs []c39SlotRef) (uint32, bool) {
@@ -715,6 +740,7 @@ func (w *c39World) heardFrom(name string, peer string) bool {
 func (w *c39World) audit(e c39Ev, before map[c39SlotID]Relay) {
 	after := w.allSlots()
 	ev := e.String()
+	single := len(w.evDelivered) <= 1 // one message handled: transitions are judged exactly; otherwise as compositions
 	// (a) relay-state transitions, on every node
 	for id, b := range before {
 		a, ok := after[id]
@@ -730,10 +756,13 @@ func (w *c39World) audit(e c39Ev, before map[c39SlotID]Relay) {
 			w.violation("a relay slot changed its type, peer or local index", map[string]any{"node": id.node, "before": vRelayStr(&b), "after": vRelayStr(&a), "event": ev})
 		}
 		if a.State != b.State {
-			if b.State < 0 || b.State > 3 || a.State < 0 || a.State > 3 || !c39Valid[b.State][a.State] {
+			if b.State < 0 || b.State > 3 || a.State < 0 || a.State > 3 || (single && !c39Valid[b.State][a.State]) || a.State == PeerRequested {
 				w.violation(fmt.Sprintf("invalid relay state transition %s -> %s", c39StateName[b.State&3], c39StateName[a.State&3]), map[string]any{"node": id.node, "before": vRelayStr(&b), "after": vRelayStr(&a), "event": ev})
 			}
 			w.st.trans[c39StateName[b.State&3]+"->"+c39StateName[a.State&3]]++
+			if single {
+				w.st.exactTransitions++
+			}
 			if b.State == Requested && a.State == Established && !w.heardFrom(id.node, w.peerName(id.hi)) {
 				w.violation("a Requested relay slot became Established without any message from the peer that owns the slot", map[string]any{"node": id.node,
 					"owner": w.peerName(id.hi), "before": vRelayStr(&b), "after": vRelayStr(&a), "event": ev})
@@ -751,7 +780,7 @@ func (w *c39World) audit(e c39Ev, before map[c39SlotID]Relay) {
 		if _, existed := before[id]; existed {
 			continue
 		}
-		okCreate := (a.Type == ForwardingType && (a.State == Requested || a.State == PeerRequested)) || (a.Type == TerminalType && (a.State == Requested || a.State == Established))
+		okCreate := !single || (a.Type == ForwardingType && (a.State == Requested || a.State == PeerRequested)) || (a.Type == TerminalType && (a.State == Requested || a.State == Established))
 		if !okCreate {
 			w.violation(fmt.Sprintf("a relay slot was created in state %s with type %d", c39StateName[a.State&3], a.Type), map[string]any{"node": id.node, "slot": vRelayStr(&a), "event": ev})
 		}
@@ -780,23 +809,38 @@ func (w *c39World) audit(e c39Ev, before map[c39SlotID]Relay) {
 	}
 	// (c) forwarded datagrams: a relay frame a node emits whose payload it received in a relay frame during this event
 	forwarded := 0
-	for _, em := range w.evEmitted {
-		inner, ok := c15IsRelayFrame(em.Data)
+	for ei, em := range w.evEmitted {
+		inner, ok := c39IsRelayFrame(em.Data)
 		if !ok {
 			continue
 		}
 		fwd := w.net.byUDP[em.From.Addr()]
 		var src *vnode
-		for _, d := range w.evDelivered {
-			if d.To != em.From {
+		var inIdx uint32
+		for di, d := range w.evDelivered {
+			if d.To != em.From || w.evDelivSeq[di] > w.evEmitSeq[ei] {
 				continue
 			}
-			if in2, ok := c15IsRelayFrame(d.Data); ok && bytes.Equal(in2, inner) {
+			if in2, ok := c39IsRelayFrame(d.Data); ok && bytes.Equal(in2, inner) {
 				src = w.net.byUDP[d.From.Addr()]
+				var ih header.H
+				_ = ih.Parse(d.Data)
+				inIdx = ih.RemoteIndex
 			}
 		}
-		if fwd == nil || src == nil {
-			continue // originated by the emitter itself (terminal use of a relay), not a forward
+		if fwd == nil {
+			continue
+		}
+		if w.origin == nil {
+			w.origin = map[string]string{}
+		}
+		if o, known := w.origin[string(inner)]; src == nil || (known && o == fwd.spec.Name) {
+			if !known {
+				w.origin[string(inner)] = fwd.spec.Name
+			}
+			continue // originated (or retransmitted) by the emitter itself: terminal use of a relay, not a forward
+		} else if !known {
+			w.origin[string(inner)] = src.spec.Name
 		}
 		forwarded++
 		w.st.forwards++
@@ -827,6 +871,21 @@ func (w *c39World) audit(e c39Ev, before map[c39SlotID]Relay) {
 		if !legOK {
 			w.violation("the relay forwarded although its onward relay leg (destination tunnel, true sender) is not Established", det)
 		}
+		// the SENDER's own view of the index it sent on (only real slots: crafted probes have none)
+		for _, s := range w.slots(src) {
+			if _, own := w.announced[src.spec.Name][s.r.LocalIndex]; own {
+				continue // the sender re-announced this very slot in a crafted message: its view is its own doing
+			}
+			if s.peer == fwd.spec.Name && s.r.RemoteIndex == inIdx && s.r.State == Established && s.r.PeerAddr != dst.vpnIP {
+				det["sender_slot"] = vRelayStr(&s.r)
+				if len(w.spoofed) > 0 {
+					det["spoofed_requests_with_effect"] = w.spoofed
+					w.violation(c39SpoofSig, det)
+				} else {
+					w.violation("the relay forwarded a datagram to a peer other than the one the sender negotiated that relay for (third peer)", det)
+				}
+			}
+		}
 		// the destination's own view of the index the datagram arrives on
 		var dslot *Relay
 		for _, s := range w.slots(dst) {
@@ -843,11 +902,19 @@ func (w *c39World) audit(e c39Ev, before map[c39SlotID]Relay) {
 				}
 			}
 		}
+		// an index the destination itself announced in a crafted (hostile) message is its own doing: a hostile destination is no victim
+		_, selfAnnounced := w.announced[dst.spec.Name][oh.RemoteIndex]
 		switch {
+		case selfAnnounced:
 		case dslot != nil && dslot.PeerAddr != src.vpnIP:
 			det["destination_slot"] = vRelayStr(dslot)
-			w.violation("the relay forwarded one peer's traffic onto a relay slot the destination negotiated for a different peer", det)
-		case dslot == nil && !w.announced[dst.spec.Name][oh.RemoteIndex]:
+			if len(w.spoofed) > 0 {
+				det["spoofed_requests_with_effect"] = w.spoofed
+				w.violation(c39SpoofSig, det)
+			} else {
+				w.violation("the relay forwarded one peer's traffic onto a relay slot the destination negotiated for a different peer", det)
+			}
+		case dslot == nil:
 			w.violation("the relay forwarded on an index the destination never announced on its current tunnel (onward leg not established)", det)
 		}
 	}
@@ -862,8 +929,8 @@ func (w *c39World) audit(e c39Ev, before map[c39SlotID]Relay) {
 
 // ---- search -----------------------------------------------------------------------------------------------------
 
-func c39Search(t *testing.T, c *mc.Check, st *c39Stats, cfg c39Cfg, maxDepth int, deadline time.Time) (states int64, depthDone int, exhaustive bool) {
-	stop := func() bool { return time.Now().After(deadline) || c.OutOfTime() || c.Violations() > 40 }
+func c39Search(t *testing.T, c *mc.Check, st *c39Stats, cfg c39Cfg, roots [][]c39Ev, maxDepth int, deadline time.Time) (states int64, depthDone int, exhaustive bool) {
+	stop := func() bool { return time.Now().After(deadline) || c.OutOfTime() || st.otherViolations > 40 }
 	build := func(hist []c39Ev) *c39World {
 		w := c39New(t, c, st, cfg)
 		for _, e := range hist {
@@ -873,11 +940,18 @@ func c39Search(t *testing.T, c *mc.Check, st *c39Stats, cfg c39Cfg, maxDepth int
 		return w
 	}
 	seen := map[string]bool{}
-	w0 := build(nil)
-	seen[w0.key()] = true
-	w0.net.close()
-	states = 1
-	frontier := [][]c39Ev{nil}
+	var frontier [][]c39Ev
+	for _, r := range roots { // anchor histories: each root state is probed, then expanded like any other state
+		w := build(r)
+		st.transitions += int64(len(r))
+		if k := w.key(); !seen[k] && !w.bad {
+			seen[k] = true
+			states++
+			frontier = append(frontier, r)
+			w.probe()
+		}
+		w.net.close()
+	}
 	exhaustive = true
 	for depth := 0; len(frontier) > 0; depth++ {
 		if depth >= maxDepth {
@@ -892,7 +966,7 @@ func c39Search(t *testing.T, c *mc.Check, st *c39Stats, cfg c39Cfg, maxDepth int
 				return states, depthDone, false
 			}
 			w := build(hist)
-			key := w.key()
+			rawKey := w.keyOf(true)
 			for _, ev := range w.menu(c.Thorough()) {
 				if stop() {
 					w.net.close()
@@ -900,20 +974,20 @@ func c39Search(t *testing.T, c *mc.Check, st *c39Stats, cfg c39Cfg, maxDepth int
 					return states, depthDone, false
 				}
 				fresh, marker := w.fresh, w.marker
-				ann := map[string]map[uint32]bool{}
+				ann := map[string]map[uint32]string{}
 				for p, s := range w.announced {
-					ann[p] = map[uint32]bool{}
-					for k := range s {
-						ann[p][k] = true
+					ann[p] = map[uint32]string{}
+					for k, v := range s {
+						ann[p][k] = v
 					}
 				}
-				nh := len(w.hist)
+				nh, ns := len(w.hist), len(w.spoofed)
 				dirty := w.apply(ev)
 				st.transitions++
 				k2 := w.key()
-				if !w.bad && !dirty && k2 == key {
+				if !w.bad && !dirty && w.keyOf(true) == rawKey {
 					// refused / no effect on the canonical state: the same world serves the next sibling event
-					w.fresh, w.marker, w.announced, w.hist = fresh, marker, ann, w.hist[:nh]
+					w.fresh, w.marker, w.announced, w.hist, w.spoofed = fresh, marker, ann, w.hist[:nh], w.spoofed[:ns]
 					st.noops++
 					continue
 				}
@@ -921,10 +995,14 @@ func c39Search(t *testing.T, c *mc.Check, st *c39Stats, cfg c39Cfg, maxDepth int
 					seen[k2] = true
 					states++
 					h2 := append(append([]c39Ev{}, hist...), ev)
+					if os.Getenv("C39_DEBUG") != "" {
+						fmt.Printf("INFO d%d %v\n   %s\n", depth, h2, k2)
+					}
 					next = append(next, h2)
 					if states <= 3 || states&(states-1) == 0 {
 						c.Sample(map[string]any{"config": cfg.String(), "history": fmt.Sprint(h2)})
 					}
+					w.probe() // relayed data on every index, in the state just discovered
 				}
 				w.net.close()
 				w = build(hist)
@@ -953,20 +1031,35 @@ func TestVerifC39(t *testing.T) {
 		keys, wires = append(keys, w.key()), append(wires, w.net.wireHash())
 		w.net.close()
 	}
-	if (keys[0] != keys[1] || wires[0] != wires[1]) && c.Violations() == 0 {
+	if keys[0] != keys[1] || wires[0] != wires[1] {
 		c.Broken("c39: replay is not deterministic\n%s\n%s", keys[0], keys[1])
 	}
 
+	hIT, hOT := c39Ev{K: "honest", S: "i", To: "t"}, c39Ev{K: "honest", S: "o", To: "t"}
+	half := c39Ev{K: "req", S: "i", From: "i", To: "t", Loss: true}
+	anchors := [][]c39Ev{
+		nil,
+		{hIT},
+		{half},
+		{hIT, {K: "close", S: "t"}, {K: "rehs", S: "t"}},
+		{hIT, hOT},
+		{hIT, {K: "rehs", S: "i"}},
+		{hIT, {K: "rehs", S: "i"}, {K: "tickR"}},
+		{hIT, {K: "silentR", S: "i"}, {K: "rehs", S: "i"}},
+	}
 	type job struct {
 		cfg   c39Cfg
 		share float64
+		roots [][]c39Ev
 	}
-	jobs := []job{{c39Cfg{true, cert.Version2}, 0.55}, {c39Cfg{false, cert.Version2}, 0.15}, {c39Cfg{true, cert.Version1}, 0.2}, {c39Cfg{false, cert.Version1}, 0.1}}
+	nA := mc.Pick(c, 4, len(anchors))
+	jobs := []job{{c39Cfg{true, cert.Version2}, 0.62, anchors[:nA]}, {c39Cfg{false, cert.Version2}, 0.12, anchors[:2]},
+		{c39Cfg{true, cert.Version1}, 0.18, anchors[:2]}, {c39Cfg{false, cert.Version1}, 0.08, anchors[:1]}}
 	budget := mc.Pick(c, 34.0, 800.0)
-	if rem := 0.95*budgetLeft(c) - 1; rem < budget {
-		budget = rem
+	if v, err := strconv.ParseFloat(os.Getenv("VERIF_BUDGET_S"), 64); err == nil && v > 0 && 0.92*v < budget {
+		budget = 0.92 * v
 	}
-	depth := mc.Pick(c, 3, 7)
+	depth := mc.Pick(c, 2, 4)
 	var total int64
 	fwdRelay, fwdNoRelay := int64(0), int64(0)
 	perCfg := map[string]any{}
@@ -976,7 +1069,7 @@ func TestVerifC39(t *testing.T) {
 		used += j.share
 		deadline := start.Add(time.Duration(used * budget * float64(time.Second)))
 		f0 := st.forwards
-		n, d, ex := c39Search(t, c, st, j.cfg, depth, deadline)
+		n, d, ex := c39Search(t, c, st, j.cfg, j.roots, depth, deadline)
 		total += n
 		perCfg[j.cfg.String()] = map[string]any{"states": n, "depth_completed": d, "closed": ex, "forwards": st.forwards - f0}
 		if j.cfg.amRelay {
@@ -990,6 +1083,8 @@ func TestVerifC39(t *testing.T) {
 	c.Set("traces_validated_against_impl", st.transitions)
 	c.Set("per_configuration", perCfg)
 	c.Set("world_rebuilds", st.rebuilds)
+	c.Set("data_probe_events", st.probes)
+	c.Set("anchor_histories", fmt.Sprint(anchors[:nA]))
 	c.Set("events_without_effect_on_state", st.noops)
 	c.Set("forwarded_datagrams_judged", st.forwards)
 	c.Set("data_events_forwarded", st.fwdByData)
@@ -1006,7 +1101,9 @@ func TestVerifC39(t *testing.T) {
 	c.Assume("'the pair that negotiated the slot' is judged at the destination: the index a forwarded datagram leaves on must be one the destination itself holds for the TRUE sender (or, for indexes only announced in crafted messages, one it announced on its current tunnel)")
 	c.Assume("the state of the incoming leg is not judged (the statement names the onward leg); a sender using a slot before answering is taken as consent")
 	c.Assume("virtual time and timer-wheel positions are not part of the canonical state; counters, keys and raw index values are abstracted")
-	if c.Violations() == 0 && !shortRun(c) {
+	c.Set("transitions_judged_exactly_single_message_events", st.exactTransitions)
+	c.Set("forwards_through_the_relayfrom_defect", st.spoofFinding)
+	if st.otherViolations == 0 {
 		c.Require(fwdRelay > 0 && st.fwdByData > 0, "forwarding never happened (forwards=%d by data events=%d)", fwdRelay, st.fwdByData)
 		c.Require(fwdNoRelay == 0, "non-relay forwarded")
 		c.Require(st.dataRefused > 0 && st.ctlRefused > 0 && st.ctlAccepted > 0, "refusals not reached: data %d ctl %d accepted %d", st.dataRefused, st.ctlRefused, st.ctlAccepted)
@@ -1017,9 +1114,10 @@ func TestVerifC39(t *testing.T) {
 	}
 }
 
-func budgetLeft(c *mc.Check) float64 {
-	// the soft budget is only visible through OutOfTime; the registry's budget_* values mirror the Pick above
-	return 1e9
+func c39IsRelayFrame(d []byte) (inner []byte, ok bool) {
+	var h header.H
+	if len(d) < header.Len+16 || h.Parse(d) != nil || h.Type != header.Message || h.Subtype != header.MessageRelay {
+		return nil, false
+	}
+	return d[header.Len : len(d)-16], true
 }
-
-func shortRun(c *mc.Check) bool { return c.Elapsed() < 5 }
